@@ -12,6 +12,7 @@ fragments; the full statement is false of code and model (`C07_full_statement_fa
 -/
 import PoetryVerif.Proofs.MarkerAlgSoundOps
 import PoetryVerif.Proofs.MarkerAlgSoundStr
+import PoetryVerif.Proofs.MarkerPrint
 
 set_option linter.unusedSimpArgs false
 set_option linter.unusedVariables false
@@ -143,6 +144,28 @@ theorem any_always_true_partial (S : LeafSpec (leafEval E) G) {a b r : M} (ha : 
   have := (mUnion_sound S ha hb h).2
   unfold holds; rw [← this]; exact M.isAny_sem he
 
+/-- **Every result can be printed and parsed back** (tree level): for printable operands over good leaves
+that have a text and re-read to themselves, `a.intersect(b)` / `a.union(b)` is Any, Empty, or a marker whose
+`__str__` is the text of a grammar tree that `_compact_markers` turns back into a marker with the same
+truth value — hence the truth value the property demands. -/
+theorem result_printable_partial (S : LeafSpec (leafEval E) G) (hP : ∀ l, G l → Leaf.Printable l)
+    (hL : ∀ l, G l → LeafPrintOK (leafEval E) G l) {a b r : M} (ha : M.Good G a) (hb : M.Good G b)
+    (pa : (M.toSyn a).isSome = true) (pb : (M.toSyn b).isSome = true)
+    (h : mIntersect fuel stk a b = .ok r ∨ mUnion fuel stk a b = .ok r) :
+    r.isAny = true ∨ r.isEmpty = true ∨
+      ∃ t m', M.toSyn r = some t ∧ M.toStr r = .ok t.text ∧ compactRaw t = .ok m' ∧
+        holds E m' = holds E r := by
+  have hp : r.PrintableE ∧ M.Good G r := by
+    rcases h with h | h
+    · exact ⟨mIntersect_printable S hP fuel stk a b r ha hb pa pb h, (mIntersect_sound S ha hb h).1⟩
+    · exact ⟨mUnion_printable S hP fuel stk a b r ha hb pa pb h, (mUnion_sound S ha hb h).1⟩
+  rcases hp.1 with h1 | h1 | h1
+  · exact Or.inl h1
+  · exact Or.inr (Or.inl h1)
+  · obtain ⟨t, ht⟩ := Option.isSome_iff_exists.1 h1
+    obtain ⟨h2, m', h3, _, h5⟩ := M.print_reparse S hL hp.2 ht
+    exact Or.inr (Or.inr ⟨t, m', ht, h2, h3, h5⟩)
+
 /-! ### Discharging the leaf facts: the string fragment (through C16's exactness theorems) -/
 
 /-- **The leaf facts hold on the string fragment**: for leaves over plain string variables (`sys_platform`,
@@ -161,6 +184,16 @@ theorem intersect_union_sound_string_partial (H : MkAtomOK E) {a b r : M}
     (mUnion fuel stk a b = .ok r → M.validate E r = .ok (holds E a || holds E b)) :=
   ⟨fun h => (intersect_sound_partial (leafSpec_str H) (fun l hl => strLeaf_evaluable hl) ha hb h).2.2,
    fun h => (union_sound_partial (leafSpec_str H) (fun l hl => strLeaf_evaluable hl) ha hb h).2.2⟩
+
+/-- **The constructor fact on plain values** (through C06's text-level lemmas): for the canonical string
+variables and an `==`/`!=` atom whose value consists of plain characters (no white space, quotes, `|`, `,`)
+and does not start like an operator, `SingleMarker(name, str(atom))` stores that atom again — each instance
+of `MkAtomOK` with such a value holds. -/
+theorem mkAtomOK_plain_values (n : String) (a : Generic.Atom) (s : Single) (hn : n ∈ plainStringVars)
+    (hv : PlainValue a.value) (hx : a.x = false) (he : a.isEqNe = true)
+    (h : mkSingleOfC n (.gen (.s (.atom a))) = .ok s) :
+    s.name = n ∧ s.swapped = false ∧ s.c = .gen (.s (.atom a)) ∧ s.op = a.op.str ∧ s.value = a.value :=
+  mkAtomOK_plain n a s hn hv hx he h
 
 /-- the fragment is inhabited by what the parser builds, and the constructor fact holds on such atoms -/
 example : StrLeaf Ex.envAB (.single Ex.sA) ∧ StrLeaf Ex.envAB (.single Ex.sNA) ∧ StrLeaf Ex.envAB (.single Ex.sB) ∧
